@@ -237,6 +237,7 @@ func lapackProp(self, other, what string) *property {
 			r.Floor("index_sites", 800)
 			r.Floor("call_pairs", 300)
 			res.Merge(r)
+			res.Merge(stride.RunArgmaxBase(def, sc))
 			o := lapackArgs
 			a := args.Run(def, core.Scope{Patterns: []string{"./lapack/gonum"}, Files: sc.Files}, o)
 			a.Floor("entry_points", 50)
@@ -918,6 +919,8 @@ func dump(argv []string) {
 		res = graphinv.RunRangeFirst(def)
 	case "iterfamily":
 		res = graphinv.RunIterFamily(def)
+	case "argmaxbase":
+		res = stride.RunArgmaxBase(def, core.Pkgs(argv[1:]...))
 	case "workquery":
 		res = flagx.RunWorkQuery(def, core.Pkgs(argv[1:]...))
 	case "betascale":
